@@ -77,6 +77,17 @@ CLAIMED = {
              "and repaired (fix: commit 9caae2d: stored root compared as a string).",
         technique="Lean 4 proof (guard/effect case analysis) + regenerated facts + differential correspondence",
         ref="§7 C16"),
+    "C18": dict(
+        text="Lean 4 theorems over an executable model of the devgas payout decorator and registry handlers: per denom and n recipients "
+             "n*payout <= share*fee/10^18 + n/2 (banker's rounding of the truncated quotient), the paid coins come only from the tx's own "
+             "allowed fee coins, equal split among exactly the registered executed contracts, nothing when disabled/unregistered; "
+             "register accepted only for admin/creator or factory contracts naming themselves, update/cancel only for admin/creator; "
+             "rejected messages change nothing. T1 fact: decorator directly after DeductFee. Correspondence through the real decorator "
+             "and msg server with real wasm contracts.",
+        note="Trusted: Lean kernel; harness; extractor; wasm ContractInfo and bank sends as parameters. One genuine defect found and "
+             "repaired (fix: commit d2484cb: repeated allowed denom counted twice).",
+        technique="Lean 4 proof (integer rounding inequalities, guard/effect case analysis) + regenerated facts + differential correspondence",
+        ref="§7 C18"),
 }
 
 PENDING_REASON = "not claimed yet: model/proofs for this property are still being built (see DESIGN.md §9 build order)"
